@@ -1026,6 +1026,10 @@ class Interp:
             idx = self.eval(e.slice)
             if isinstance(base, list) and isinstance(idx, list) and idx and all(isinstance(b, bool) for b in idx):
                 return [x for x, b in zip(base, idx) if b]
+            if isinstance(base, (list, tuple)) and isinstance(idx, Obj) and idx.name == "slice" and "stop" in idx.attrs:
+                g_ = lambda x: None if x is None else int(to_poly(x).const_value())
+                r_ = list(base[slice(g_(idx.attrs.get("start")), g_(idx.attrs.get("stop")), g_(idx.attrs.get("step")))])
+                return type(base)(r_) if type(base).__name__ == "T" else r_
             if isinstance(base, (list, tuple)):
                 i = int(to_poly(idx).const_value())
                 return base[i]
@@ -1063,7 +1067,16 @@ class Interp:
         if isinstance(e, ast.Lambda):
             return Closure(e, self)
         if isinstance(e, ast.Dict):
-            return {self.eval(k): self.eval(v) for k, v in zip(e.keys, e.values)}
+            out_ = {}
+            for k, v in zip(e.keys, e.values):
+                if k is None:  # {**mapping}
+                    mv = self.eval(v)
+                    if not isinstance(mv, dict):
+                        raise Undecided("dict unpacking of a non-dict")
+                    out_.update(mv)
+                else:
+                    out_[self.eval(k)] = self.eval(v)
+            return out_
         raise Undecided(f"expression {type(e).__name__}")
 
     def _int(self, node, default):
